@@ -129,8 +129,13 @@ def validate(wd, trace, verdict, tag):
         if len(canon) > 1:
             minority = min(canon.values(), key=len)
             m = meta[minority[0]]
+            explained = all((eid not in failed) or str(failed[eid]).startswith("lenient:") for eid in eids)
+            sideways = any(str(failed.get(eid, "")).startswith("lenient:sideways") for eid in eids)
             failed.setdefault(minority[0], "configurations disagree")
-            verdict.violation("ExecutionEngine|configurations of the same query return different solution multisets|" + m["cfg"]["stats"] + "/" + m["cfg"]["assign"].rstrip("0123456789"),
+            sig = ("ExecutionEngine|bind join vs hash / nested-loop join|the right-hand pattern of a bind join sees the left solution's bindings: join algorithms disagree"
+                   if explained and sideways else
+                   "ExecutionEngine|configurations of the same query return different solution multisets|" + m["cfg"]["stats"] + "/" + m["cfg"]["assign"].rstrip("0123456789"))
+            verdict.violation(sig,
                               {"driver": "c02", "case": dict(m["case"]), "cfg": m["cfg"], "text": m["text"], "verdict": "configurations disagree"},
                               detail=f"{m['cfg']} vs {meta[max(canon.values(), key=len)[0]]['cfg']}")
     return events, meta, failed, res
